@@ -111,7 +111,7 @@ def check(run):
         kw = q.kwargs_of(v) if isinstance(v, ast.Call) else {}
         run.check('sent_events' in kw and isinstance(it, ast.Name) and obj_is(kw['sent_events'], it.id), r, A.fi.short, 'reported sent_events = the raised list', 'differs', rt)
     from .c10 import rules_delivery
-    rules_delivery(run, 'C15', '.4')
+    run.guard(rules_delivery, run, 'C15', '.4')
     from .c03 import rules_trace_complete
     r5 = run.rule('C15.5', 'the micro steps returned by _apply_step (which carry the sent events) are the ones collected into the returned MacroStep, also during stabilisation')
-    rules_trace_complete(run, r5)
+    run.guard(rules_trace_complete, run, r5)
